@@ -253,6 +253,10 @@ type Handle struct {
 	// Hook, if set, is called at the start of every ReadAt (used as a yield
 	// point by the scheduler).
 	Hook func(off int64, n int)
+	// HookAfter, if set, is called after the data has been copied into the
+	// caller's buffer and before ReadAt returns: a caller may be descheduled
+	// between receiving its bytes and looking at them.
+	HookAfter func(off int64, n int)
 }
 
 func NewHandle(data []byte) *Handle {
@@ -284,6 +288,9 @@ func (h *Handle) ReadAt(p []byte, off int64) (int, error) {
 	}
 	n := copy(p, h.Data[off:])
 	h.Bytes += int64(n)
+	if h.HookAfter != nil {
+		h.HookAfter(off, n)
+	}
 	if n < len(p) {
 		return n, io.EOF
 	}
